@@ -2,6 +2,8 @@ package main
 
 import (
 	"go/types"
+	"net/url"
+	"sort"
 
 	"golang.org/x/tools/go/ssa"
 )
@@ -128,8 +130,44 @@ func (e *Engine) httpIntercept(fr *frame, fn *ssa.Function, name string, args []
 		if id, ok := atomOf(rq, '?'); ok {
 			return e.copyMap(fr, e.hm().values[id], vt), true
 		}
-		if s, ok := rq.(*StrVal); ok && len(s.B) == 0 {
-			return e.newLibMap(vt), true
+		if s, ok := rq.(*StrVal); ok {
+			// [encoded Values] followed by literal query text (e.g. "&name=" + name), or literal text alone:
+			// the literal part is parsed by the real net/url.ParseQuery
+			var m *MapVal
+			rest := s.B
+			if len(s.B) >= 2 {
+				if id, ok := atomOf(&StrVal{B: s.B[:2]}, '?'); ok {
+					m = e.copyMap(fr, e.hm().values[id], vt)
+					rest = s.B[2:]
+				}
+			}
+			if m == nil {
+				m = e.newLibMap(vt)
+			}
+			txt, ok := (&StrVal{B: rest}).Concrete()
+			if !ok {
+				panic(engineErr("URL.Query: RawQuery has a symbolic literal part"))
+			}
+			parsed, _ := url.ParseQuery(txt)
+			keys := make([]string, 0, len(parsed))
+			for k := range parsed {
+				keys = append(keys, k)
+			}
+			sort.Strings(keys)
+			for _, k := range keys {
+				var vals []Value
+				if en := e.mapFind(fr, m, e.strConst(k)); en != nil {
+					old := en.V.(SliceVal)
+					for i := 0; i < old.Len; i++ {
+						vals = append(vals, e.load(fr, old.Arr.E[old.Off+i]))
+					}
+				}
+				for _, v := range parsed[k] {
+					vals = append(vals, e.strConst(v))
+				}
+				e.mapUpdate(fr, m, e.strConst(k), e.strSlice(vals...))
+			}
+			return m, true
 		}
 		panic(engineErr("URL.Query: RawQuery is not a modelled query string"))
 	case "(net/url.Values).Encode":
@@ -153,6 +191,31 @@ func (e *Engine) httpIntercept(fr *frame, fn *ssa.Function, name string, args []
 			return e.strConst(""), true
 		}
 		return e.load(fr, sl.Arr.E[sl.Off]), true
+	case "(net/url.Values).Del":
+		if m, _ := args[0].(*MapVal); m != nil {
+			e.mapDelete(fr, m, args[1])
+		}
+		return nil, true
+	case "(net/url.Values).Has":
+		m, _ := args[0].(*MapVal)
+		if m == nil {
+			return e.tb.Bool(false), true
+		}
+		return e.tb.Bool(e.mapFind(fr, m, args[1]) != nil), true
+	case "(net/url.Values).Add":
+		m, _ := args[0].(*MapVal)
+		if m == nil {
+			e.progPanicAt(fr, "assignment to entry in nil map")
+		}
+		var vals []Value
+		if en := e.mapFind(fr, m, args[1]); en != nil {
+			old := en.V.(SliceVal)
+			for i := 0; i < old.Len; i++ {
+				vals = append(vals, e.load(fr, old.Arr.E[old.Off+i]))
+			}
+		}
+		e.mapUpdate(fr, m, args[1], e.strSlice(append(vals, args[2])...))
+		return nil, true
 	case "(net/url.Values).Set":
 		m, _ := args[0].(*MapVal)
 		if m == nil {
